@@ -18,6 +18,7 @@ import (
 	"go/token"
 	"os"
 	"path/filepath"
+	"sort"
 	"strconv"
 	"strings"
 )
@@ -108,6 +109,45 @@ func mutate(rel string, orig []byte) []mutant {
 		}
 		return true
 	})
+	// third batch: a local identifier replaced by another local of the same function (the compiler
+	// weeds out the ill-typed ones), bodies of adjacent case clauses swapped, defer dropped
+	for fi, d := range f.Decls {
+		fd, ok := d.(*ast.FuncDecl)
+		if !ok || fd.Body == nil {
+			continue
+		}
+		names := localNames(fd)
+		k := 0
+		ast.Inspect(fd.Body, func(n ast.Node) bool {
+			if id, ok := n.(*ast.Ident); ok && names[id.Name] {
+				a := 0
+				for _, other := range sortedNames(names) {
+					if other != id.Name {
+						sites = append(sites, site{"identsub", fi*100000 + k, a})
+					}
+					a++
+				}
+				k++
+			}
+			return true
+		})
+	}
+	cj2, dj := 0, 0
+	ast.Inspect(f, func(n ast.Node) bool {
+		switch x := n.(type) {
+		case *ast.BlockStmt:
+			for i := 0; i+1 < len(x.List); i++ {
+				if _, ok := x.List[i].(*ast.CaseClause); ok {
+					sites = append(sites, site{"caseswap", cj2, 0})
+					cj2++
+				}
+			}
+		case *ast.DeferStmt:
+			sites = append(sites, site{"deldefer", dj, 0})
+			dj++
+		}
+		return true
+	})
 	// second batch of operators: error swallowed in a return, string literal emptied
 	rj, sj := 0, 0
 	ast.Inspect(f, func(n ast.Node) bool {
@@ -145,6 +185,55 @@ func mutate(rel string, orig []byte) []mutant {
 		bi, li, ii, ui, ci, si := 0, 0, 0, 0, 0, 0
 		rj, sj := 0, 0
 		done := false
+		if s.kind == "identsub" {
+			fd := f.Decls[s.idx/100000].(*ast.FuncDecl)
+			names := localNames(fd)
+			k := 0
+			ast.Inspect(fd.Body, func(n ast.Node) bool {
+				if id, ok := n.(*ast.Ident); ok && names[id.Name] && !done {
+					if k == s.idx%100000 {
+						other := sortedNames(names)[s.alt]
+						desc = fmt.Sprintf("%s: identifier %s -> %s", fset.Position(id.Pos()), id.Name, other)
+						id.Name = other
+						done = true
+					}
+					k++
+				}
+				return !done
+			})
+		}
+		if s.kind == "caseswap" || s.kind == "deldefer" {
+			cj2, dj := 0, 0
+			ast.Inspect(f, func(n ast.Node) bool {
+				if done {
+					return false
+				}
+				if x, ok := n.(*ast.BlockStmt); ok {
+					for i := 0; i < len(x.List); i++ {
+						if _, isCase := x.List[i].(*ast.CaseClause); isCase && i+1 < len(x.List) {
+							if s.kind == "caseswap" && cj2 == s.idx {
+								a, b := x.List[i].(*ast.CaseClause), x.List[i+1].(*ast.CaseClause)
+								desc = fmt.Sprintf("%s: bodies of this case clause and the next swapped", fset.Position(a.Pos()))
+								a.Body, b.Body = b.Body, a.Body
+								done = true
+								return false
+							}
+							cj2++
+						}
+						if _, isDefer := x.List[i].(*ast.DeferStmt); isDefer {
+							if s.kind == "deldefer" && dj == s.idx {
+								desc = fmt.Sprintf("%s: defer statement deleted", fset.Position(x.List[i].Pos()))
+								x.List = append(append([]ast.Stmt{}, x.List[:i]...), x.List[i+1:]...)
+								done = true
+								return false
+							}
+							dj++
+						}
+					}
+				}
+				return true
+			})
+		}
 		if s.kind == "unwrap" {
 			// replace the call by its only argument, wherever it sits
 			cj := 0
@@ -390,4 +479,60 @@ func replaceExprs(f *ast.File, fn func(ast.Expr) ast.Expr) {
 		}
 	}
 	walk(f)
+}
+
+// localNames collects parameters, results, receivers and every identifier defined in the body.
+func localNames(fd *ast.FuncDecl) map[string]bool {
+	names := map[string]bool{}
+	add := func(fl *ast.FieldList) {
+		if fl != nil {
+			for _, f := range fl.List {
+				for _, n := range f.Names {
+					if n.Name != "_" {
+						names[n.Name] = true
+					}
+				}
+			}
+		}
+	}
+	add(fd.Recv)
+	add(fd.Type.Params)
+	add(fd.Type.Results)
+	ast.Inspect(fd.Body, func(n ast.Node) bool {
+		switch x := n.(type) {
+		case *ast.AssignStmt:
+			if x.Tok == token.DEFINE {
+				for _, l := range x.Lhs {
+					if id, ok := l.(*ast.Ident); ok && id.Name != "_" {
+						names[id.Name] = true
+					}
+				}
+			}
+		case *ast.RangeStmt:
+			if x.Tok == token.DEFINE {
+				for _, l := range []ast.Expr{x.Key, x.Value} {
+					if id, ok := l.(*ast.Ident); ok && id.Name != "_" {
+						names[id.Name] = true
+					}
+				}
+			}
+		case *ast.ValueSpec:
+			for _, n := range x.Names {
+				if n.Name != "_" {
+					names[n.Name] = true
+				}
+			}
+		}
+		return true
+	})
+	return names
+}
+
+func sortedNames(m map[string]bool) []string {
+	var out []string
+	for k := range m {
+		out = append(out, k)
+	}
+	sort.Strings(out)
+	return out
 }
